@@ -39,7 +39,7 @@ RULE = ('directed histories (the design probes p5, p23 and their variants) + ran
         'are declared on the owner class or inherited from a base class, classes are sometimes falsy.  After every step '
         'the invocation log (with the values read) and the watcher tables and dynamic_watchers of all objects are compared with '
         'the model and judged by the oracle.  non-trivial = a method fired at least once and >=3 steps judged')
-COVERAGE_TARGETS = ['attach:class-default', 'step:discard', 'step:batch-repeated-key', 'decl:inherited', 'decl:own', 'objects:falsy', 'leaf:object', 'step:update', 'step:batch', 'step:method-raised', 'depth:1', 'depth:2', 'depth:3', 'deps:one', 'deps:several', 'leaf:param', 'fired',
+COVERAGE_TARGETS = ['step:reattach-same', 'attach:class-default', 'step:discard', 'step:batch-repeated-key', 'decl:inherited', 'decl:own', 'objects:falsy', 'leaf:object', 'step:update', 'step:batch', 'step:method-raised', 'depth:1', 'depth:2', 'depth:3', 'deps:one', 'deps:several', 'leaf:param', 'fired',
                     'step:attach', 'step:replace', 'step:detach', 'step:leaf-attached', 'step:leaf-detached', 'step:replace-equal']
 
 LOG = []
@@ -406,7 +406,11 @@ def _gen_case(rng):
             p = rng.choice(onpath) if rng.random() < 0.7 else rng.choice(OBJP)
             free = sh.free(holder)
             q = rng.random()
-            if q < 0.2 or not free:
+            if q < 0.12 and sh.vals[holder][p] is not None and all(sp['leaf'] in INTP for m in methods for sp in m['specs']):
+                # the object already attached is assigned again (only with integer leaves: the comparator never finds a
+                # Parameterized equal, not even to itself, so object-valued leaves below a re-attached object always "change")
+                v = sh.vals[holder][p]
+            elif q < 0.3 or not free:
                 v = None
             else:
                 v = _ref(rng.choice(free))
@@ -516,6 +520,11 @@ def _directed():
         _new(0, x=0), _new(0, b=0), _new(1, a=1), _new(0, x=0), _new(0, b=3),
         {'op': 'discard', 'o': 2, 'kvs': [['a', _ref(4)]]}, _set(3, 'x', 1), _set(0, 'x', 7),
         _new(0, x=1), {'op': 'discard', 'o': 4, 'kvs': [['b', _ref(5)]]}, _set(5, 'x', 2), _set(3, 'x', 9)]}
+    # assigning the object that is already attached re-resolves the path: after something below it changed without
+    # the owner being told (discard_events on the middle object) the owner follows the current objects again
+    yield {'classes': _classes([_m('m0', 'a.b.x')]), 'steps': [
+        _new(0, x=1), _new(0, b=0), _new(1, a=1), _new(0, x=1), {'op': 'discard', 'o': 1, 'kvs': [['b', _ref(3)]]},
+        _set(2, 'a', _ref(1)), _set(3, 'x', 5), _set(0, 'x', 9), _set(2, 'a', _ref(1)), _set(3, 'x', 6)]}
     # rejected values end the history
     yield {'classes': _classes([_m('m0', 'a.x')]), 'steps': [_new(0), _new(1, a=0), _set(1, 'a', 3)]}
     yield {'classes': _classes([_m('m0', 'a.x')]), 'steps': [_new(0), _new(1, a=0), _set(0, 'name', 1)]}
@@ -584,7 +593,7 @@ def tags(case, impl):
                 elif old is not None and st['v'] is None:
                     t.append('step:detach')
                 elif old is not None and st['v'] is not None:
-                    t.append('step:replace')
+                    t.append('step:reattach-same' if old == st['v'] else 'step:replace')
                     a, b = sh.vals[old['ref']], sh.vals[st['v']['ref']]
                     if all(a[k] == b[k] for k in INTP):
                         t.append('step:replace-equal')
